@@ -76,6 +76,9 @@ theorem suspend_addOld (w : World) (o : List String) (pc : Pc) :
     (w.addOld o).suspend pc = (w.suspend pc).addOld o := rfl
 theorem handleDisconnect_addOld (w : World) (o : List String) :
     (w.addOld o).handleDisconnect = (w.handleDisconnect).addOld o := rfl
+theorem discFail_addOld (w : World) (o : List String) (ctx : StepCtx) :
+    (w.addOld o).discFail ctx = (w.discFail ctx).addOld o := by
+  unfold World.discFail; split <;> rfl
 theorem finishOp_addOld (w : World) (o : List String) (n : String) (op : Op) :
     (w.addOld o).finishOp n op = (w.finishOp n op).addOld o := rfl
 theorem setWritten_addOld (w : World) (o : List String) (pkt : Flushed) (a c : Nat) :
@@ -262,7 +265,7 @@ theorem fstep_dsw (fuel : Nat) (ih : FrameM fuel) : ∀ w ctx pkt bytes wr len n
   | mk w1 r =>
     cases r with
     | pending => rfl
-    | zero => rfl
+    | zero => simp only [discFail_addOld]; rfl
     | err k => rfl
     | ok count =>
       simp only [setWritten_addOld, ih.sr, ih.dsf]
@@ -272,7 +275,7 @@ theorem fstep_ps (fuel : Nat) (ih : FrameM fuel) : ∀ w ctx step now o,
     performStep (fuel + 1) (World.addOld w o) ctx step now =
       (performStep (fuel + 1) w ctx step now).addOld o := by
   intro w ctx step now o
-  simp only [performStep, prepareStep_addOld, addOld_live, finishErr_addOld, ih.sr, ih.dsf, ih.dsw]
+  simp only [performStep, prepareStep_addOld, addOld_live, discFail_addOld, finishErr_addOld, ih.sr, ih.dsf, ih.dsw]
   cases prepareStep w step with
   | fail e => rfl
   | done => rfl
@@ -284,7 +287,7 @@ theorem fstep_fl (fuel : Nat) (ih : FrameM fuel) : ∀ w k o,
   intro w k o
   simp only [flushLoop, maybeQueuePingreq_addOld, addOld_now]
   cases h : w.maybeQueuePingreq w.now with
-  | error e => rfl
+  | error e => simp only [discFail_addOld]; rfl
   | ok w1 =>
     simp only [addOld_sess, addOld_now, ih.af, ih.ps]
     cases w1.sess.data.outbound.nextStep <;> rfl
